@@ -660,7 +660,7 @@ impl<'fd, B: BufSlice<N>, const N: usize> WriteAllVectored<'fd, B, N> {
                     }
                 }
 
-                if iovecs[N - 1].len() == 0 {
+                if iovecs.iter().all(|iovec| iovec.len() == 0) {
                     // Written everything.
                     return Poll::Ready(Ok(bufs));
                 }
